@@ -147,6 +147,20 @@ def main(pid):
         h.check_contract('numba_unique', lambda a: R.numba_unique(a),
                          ({'a': a} for a in common.small_int_arrays(4 if quick else 6, 3)))
 
+        # the same contract on sparse / offset codes anywhere in [0, 2^20) (the quantifier of the executable clause is cut at CODE_BOUND)
+        for k_ in range(60 if quick else 600):
+            n_ = int(rng.integers(1, 60))
+            a_ = rng.choice(np.array([0, 1, 5, 1023, 1024, 4 * n_ + 1024, 4 * n_ + 1025, 2 ** 16, 2 ** 20 - 1] + rng.integers(0, 2 ** 20, 4).tolist()),
+                            size=n_).astype(np.int32)
+            if k_ % 3 == 0:
+                a_ = (a_ % 7 + int(rng.integers(0, 2 ** 20 - 7))).astype(np.int32)       # dense block at a large offset
+            vals_, cnts_ = R.numba_unique(a_)
+            ev_, ec_ = np.unique(a_, return_counts=True)
+            h.record(('unique-sparse', k_), True)
+            if not (np.array_equal(np.asarray(vals_), ev_) and np.array_equal(np.asarray(cnts_), ec_)):
+                h.fail('numba_unique.ensures.counts', {'a': a_}, f'values {np.asarray(vals_).tolist()[:12]} counts {np.asarray(cnts_).tolist()[:12]}; '
+                       f'expected {ev_.tolist()[:12]} / {ec_.tolist()[:12]}', obligations=['ranking_mi_numba.numba_unique/ensures.counts'])
+
         def ce_inputs():
             for Y, X in pairs():
                 fv, fc = M.support(X)
@@ -264,8 +278,19 @@ def main(pid):
                 base = float(R.mutual_info_estimator_numba(Y, X, np.float32(1.0), c))
                 codes_y, codes_x = sorted(set(Y.tolist())), sorted(set(X.tolist()))
                 for trial in range(3):
-                    py = dict(zip(codes_y, rng.permutation(100)[:len(codes_y)].tolist()))
-                    px = dict(zip(codes_x, rng.permutation(100)[:len(codes_x)].tolist()))
+                    if n_rel % 25 == 7:
+                        # sparse codes anywhere in the statement's code range [0, 2^20): offsets, hashed-looking codes
+                        def wide(k_):
+                            out = set()
+                            while len(out) < k_:
+                                out.add(int(rng.integers(0, 2 ** 20)))
+                            out = list(out)
+                            rng.shuffle(out)
+                            return out
+                        py, px = dict(zip(codes_y, wide(len(codes_y)))), dict(zip(codes_x, wide(len(codes_x))))
+                    else:
+                        py = dict(zip(codes_y, rng.permutation(100)[:len(codes_y)].tolist()))
+                        px = dict(zip(codes_x, rng.permutation(100)[:len(codes_x)].tolist()))
                     Y2 = np.array([py[v] for v in Y.tolist()], dtype=np.int32)
                     X2 = np.array([px[v] for v in X.tolist()], dtype=np.int32)
                     got = float(R.mutual_info_estimator_numba(Y2, X2, np.float32(1.0), c))
